@@ -335,7 +335,8 @@ class Built(object):
                         full = spec
                     else:
                         full = expand_power(spec, spec['rings'], spec.get('nduct', 1))
-                    rows += power_rows(int(aid), full, None, pw.get('zunit', 1.0))
+                    # 'base0': the file numbers the assemblies from 0 (accepted by DASSH, shifted on reading)
+                    rows += power_rows(int(aid) - (1 if pw.get('base0') else 0), full, None, pw.get('zunit', 1.0))
                 name = 'power_%d.csv' % t
                 with open(os.path.join(self.dir, name), 'w') as f:
                     f.write('\n'.join(rows) + '\n')
